@@ -38,6 +38,8 @@ structure Hs where
   lines : Nat := 0
   /-- `alloc_websocket_peer` has run (the line reader is `websocket_read_header_line` from the next line on) -/
   created : Bool := false
+  /-- the line during which it ran: the rest of that line is still `read_start_line`'s -/
+  createdLine : Nat := 0
   current : HField := .unknown
   /-- `sec_web_socket_key[24 + 36]`, zeroed by `websocket_init` -/
   secKey : Bytes := List.replicate (secKeyLength + secGuidLength) 0
@@ -58,14 +60,17 @@ def headerNameIs (name at_ : Bytes) : Bool :=
 /-- `isspace` in the C locale -/
 def isSpace (b : UInt8) : Bool := b == 32 || (9 ≤ b && b ≤ 13)
 
-/-- `fill_requested_sub_protocol` -/
-def protoMatches (name tok : Bytes) : Bool := name.length == tok.length && name == tok
+/-- `fill_requested_sub_protocol`; `rtok` is the list entry in reverse order: its trailing white
+    space (optional before the comma of a list) is dropped first -/
+def protoMatches (name rtok : Bytes) : Bool :=
+  let tok := (rtok.dropWhile isSpace).reverse
+  name.length == tok.length && name == tok
 
 /-- the inner `while` of `check_websocket_protocol`: scan a token up to the next ',' or the end;
     returns whether the token matched and the rest (starting at the ',' if there is one) -/
 def scanToken (name : Bytes) : Bytes → Bytes → Bool × Bytes
-  | acc, [] => (protoMatches name acc.reverse, [])
-  | acc, b :: rest => if b == 44 then (protoMatches name acc.reverse, b :: rest) else scanToken name (b :: acc) rest
+  | acc, [] => (protoMatches name acc, [])
+  | acc, b :: rest => if b == 44 then (protoMatches name acc, b :: rest) else scanToken name (b :: acc) rest
 
 theorem scanToken_rest_le (name : Bytes) (acc bs : Bytes) : (scanToken name acc bs).2.length ≤ bs.length := by
   induction bs generalizing acc with
@@ -78,7 +83,7 @@ theorem scanToken_rest_le (name : Bytes) (acc bs : Bytes) : (scanToken name acc 
 
 set_option linter.unusedVariables false in
 /-- `check_websocket_protocol`: does some token of the comma separated list equal `name`?
-    (leading white space of a token is skipped, trailing white space is *not*) -/
+    (leading and trailing white space of an entry is skipped) -/
 def checkProtocol (name : Bytes) : Bytes → Bool
   | [] => false
   | b :: rest =>
@@ -110,7 +115,7 @@ def upgradeResponse (secKey : Bytes) : Bytes :=
 
 /-- a callback returned non-zero or the parser rejected the line: what the line reader does -/
 def Hs.fail (c : Conf) (h : Hs) : Hs × List Action :=
-  if h.lines ≤ 1 || !h.created then
+  if !h.created || h.lines ≤ h.createdLine then
     -- read_start_line
     let st := if h.status = 0 then httpBadRequest else h.status
     ({ h with status := st, phase := .closed }, [Action.write c.sendOk (httpResponse st), Action.closeConn])
@@ -129,7 +134,7 @@ def Hs.step (c : Conf) (target : Bytes) (h : Hs) (e : HsEvent) : Hs × List Acti
     else match path with
       | none => Hs.fail c { h with status := httpBadRequest }
       | some p =>
-        if target.isPrefixOf p then ({ h with created := true }, [])
+        if target.isPrefixOf p then ({ h with created := true, createdLine := h.lines }, [])
         else Hs.fail c { h with status := httpNotFound }
   | .field name =>
     if headerNameIs hdrKey name then ({ h with current := .key }, [])
